@@ -133,7 +133,9 @@ Exec(st, prog, mode, r, lt, p) ==
       [] i.op = "ST" ->     \* stop another routine: whatever it has queued is dropped when its turn comes
             LET o == st.rt[i.s]
                 s1 == adv(st) IN
-            Exec([s1 EXCEPT !.rt = Put(s1.rt, i.s, [o EXCEPT !.st = "done"])], prog, mode, r, lt, p)
+            \* (stop() also resets the routine's clock to SystemClock: a later signal() of a condition it was
+            \* parked on schedules the dead routine there)
+            Exec([s1 EXCEPT !.rt = Put(s1.rt, i.s, [o EXCEPT !.st = "done", !.clock = "sys"])], prog, mode, r, lt, p)
       [] i.op \in {"S", "M"} -> Exec(Send(adv(st), mode, r, TRUE, lt, i), prog, mode, r, lt, p)
       [] i.op \in {"T", "ET"} ->      \* tempo setter; etempo() re-bases at elapsed time, which in NRT is the logical time
             Exec(SetTempo(adv(st), lt, i.c, i.a, i.b), prog, mode, r, lt, p)
